@@ -754,6 +754,13 @@ def _renumber(t):
 
 
 # ---------------------------------------------------------------------- queries on terms
+def norm_cond(c, pol):
+    """(condition, polarity) with leading negations folded into the polarity"""
+    while isinstance(c, tuple) and c and c[0] == "u" and c[1] == "not":
+        c, pol = c[2], not pol
+    return c, pol
+
+
 def conjuncts(t, sym="&"):
     if isinstance(t, tuple) and t[0] == "opn" and t[1] == sym:
         return list(t[2])
